@@ -402,7 +402,27 @@ func enumerateCNF(tier string, seed int64, certOnly bool, yield func(string, cor
 	if certOnly {
 		rcfg = rcfg[:1]
 	}
-	famR(seed, nr, func(name string, f [][]int, n int) bool { return emit("R", f, n, rcfg) })
+	if !famR(seed, nr, func(name string, f [][]int, n int) bool { return emit("R", f, n, rcfg) }) {
+		return
+	}
+	// R3: seeded threshold 3-CNFs over 10..14 variables (tens of conflicts per run, learned clauses
+	// reused as reasons), every heuristic choice list with <=1 deviation
+	n3 := 300
+	if thorough {
+		n3 = 3000
+	}
+	g := &lcg{s: uint64(seed)*16807 + 3}
+	for i := 0; i < n3; i++ {
+		n := 10 + int(g.next()%5)
+		f := rand3cnf(g.next(), n, (426*n+50)/100)
+		dev := 1
+		if !certOnly && (i < 100 || thorough && i < 600) {
+			dev = 2 // two deviations on the first seeds (verdict check only: cheap)
+		}
+		if !emit("R3", f, n, []cfg{{"slice", 0, 0, dev}}) {
+			return
+		}
+	}
 }
 
 // ---------------------------------------------------------------------------
@@ -412,7 +432,7 @@ type c01 struct{}
 func (c01) ID() string    { return "C01" }
 func (c01) Level() string { return "exploration" }
 func (c01) Rule() string {
-	return "cases = every CNF of the families T2 (n=2, all literal sequences of length 0..3 as clauses, all clause sequences), S3, S4, L6 (watch movement), M (conflict-rich seeds and all one-edit neighbours), R (seeded catalogue of random 2/3-CNFs over 6..10 variables with all one-edit neighbours) x entry point (ParseSlice, ParseSliceNb with n and n+1 declared, ParseCNF) x learned-clause limit (default, reduce at 1 or 2 stored clauses, or tight: the limit always equals the number of stored clauses); each case is executed once per heuristic choice list (decision variable/polarity, restart now, reduce now) up to the case's deviation bound; every execution is judged against the truth table of the input as written. A case is non-trivial when some execution made a decision or met a conflict, or parse-time simplification decided it with at least one unit or duplicate/tautology removal (clauses present)."
+	return "cases = every CNF of the families T2 (n=2, all literal sequences of length 0..3 as clauses, all clause sequences), S3, S4, L6 (watch movement), M (conflict-rich seeds and all one-edit neighbours), R (seeded catalogue of random 2/3-CNFs over 6..10 variables with all one-edit neighbours), R3 (seeded threshold 3-CNFs over 10..14 variables) x entry point (ParseSlice, ParseSliceNb with n and n+1 declared, ParseCNF) x learned-clause limit (default, reduce at 1 or 2 stored clauses, or tight: the limit always equals the number of stored clauses); each case is executed once per heuristic choice list (decision variable/polarity, restart now, reduce now) up to the case's deviation bound; every execution is judged against the truth table of the input as written. A case is non-trivial when some execution made a decision or met a conflict, or parse-time simplification decided it with at least one unit or duplicate/tautology removal (clauses present)."
 }
 func (c01) Assumptions() []string {
 	return []string{
@@ -439,6 +459,9 @@ func (c01) Exec(cc core.Case, r *core.Rec) []core.Failure {
 	opts := choice.Std(c.Dev)
 	opts.NbMax = c.NbMax
 	opts.Stop = r.Expired
+	if c.Dev == 2 {
+		opts.MaxRuns = 400000
+	}
 	st := choice.Explore(opts, r.ReplayChoices, func(ctl *choice.Ctl, choices []int) bool {
 		ctl.OnState = r.State
 		r.Execution()
